@@ -200,7 +200,11 @@ def run_property(prop, tier, seed, replay=None):
             if dis_all or broken:
                 # a broken obligation / disagreement is not by itself a violation: judge against the spec
                 judged = set()
-                for (s, fl, i, c, a, b) in dis_all:
+                # judge the shortest disagreeing cases first, and only a bounded number of them
+                dis_sorted = sorted(dis_all, key=lambda d: (len(d[3]), d[3]))
+                for (s, fl, i, c, a, b) in dis_sorted[:60]:
+                    if vn >= 5:
+                        break
                     verdict = judge_case(ctx, prop, s, fl, c, a, b)
                     if verdict is None:
                         continue
